@@ -354,7 +354,17 @@ def shipped(h: Harness):
             check_spec(h, f"extract_grammar[{mod.__name__.split('.')[-1]}.{start.__name__}]", spec, b)
 
 
+def _ring(n: int, step: int):
+    """a recursion cycle through n CONCRETE classes and no abstract type (each mentions the next through a Union with a base type), declared in
+    an order that is not the order of the cycle"""
+    order = [(i * step) % n for i in range(n)]           # position -> ring index (step coprime to n)
+    pos = {ring: p_ for p_, ring in enumerate(order)}
+    classes = [gram.ClassSpec(f"R{ring}", False, None, [("nxt", ("union", "int", ("cls", pos[(ring + 1) % n])))]) for ring in order]
+    return Spec(classes, 0, list(range(n)))
+
+
 CORPUS = [
+    _ring(3, 2), _ring(5, 3), _ring(12, 7), _ring(12, 5), _ring(40, 17),
     # a production whose fields all have minimum depth 0 -- one of them a Union of a base type and a grammar symbol that is mentioned
     # NOWHERE else: the symbol and its productions belong to the usable sub-grammar
     Spec([gram.ClassSpec("A0", True, None), gram.ClassSpec("Const", False, 0, [("v", ("union", "int", ("cls", 2))), ("w", "bool")]),
